@@ -337,7 +337,8 @@ EXTRA2 = {
          "list_start_decomposition (the verdict for any stack), same_list_spec (5.3: same bullet character / delimiter continues the list), interrupt_spec_partial + interrupt_excluded "
          "('a\\n01. b': is_not_one compares the text with \"1\"), content_column_spec_partial + two excluded witnesses recorded from real runs ('- -   \\n    a' gives indent 6, spec 4), "
          "list_start_nested_spec_partial + witness ('- a\\n      - c' becomes a nested list: the parent indent is counted twice), first_item_clause_inert (dead logic), columns_conserved."],
- "C01": [LEAFBLOCKS2 + "html_block_total (+ html_block_total_excluded), html_normal_range, html_special_local.",
+ "C01": [" Verif.Props.InlineLoop2: index_any_of_literal (the literal Python loop of ParserHelper.index_any_of = the model's first-hit definition = a position scan, all inputs).",
+         LEAFBLOCKS2 + "html_block_total (+ html_block_total_excluded), html_normal_range, html_special_local.",
          LISTSTARTS + "list_start_total (every Int start index, guard StackOK, list_start_excluded witnesses), pre_list_total / pre_list_excluded, close_required_total, "
          "close_required_prefix, can_remove_total, can_close_terminates; root cause of the call-site finding F-TOK-AE-handle_list_nesting located (stack_count >= current_count + 2 runs "
          "the nesting loop twice: '> > a\\n- b').",
@@ -350,7 +351,8 @@ EXTRA2 = {
          REGENLEAF + "regen_field_local (changing one style field of one leaf token — ATX hash count, fence character, thematic break text … — changes only that token's own "
          "contribution to the regenerated text; regen_field_local_excluded shows the one field shape where it does not): the token-level statements mdX_fix_only_style transfer to text "
          "for container-free documents."],
- "C02": [LEAFBLOCKS2 + "fence_content_roundtrip_partial, icode_roundtrip (stored white space + text = the source line, through C02's resolve_encode / remove_encode; general for tab-free lines, TAB cases are #guard tests + tie).",
+ "C02": [" Verif.Props.RegenLeaf2: fence_close_no_colon + regen_leaf_roundtrip_fence (the closing-fence hypothesis of regen_leaf_roundtrip is now proved, not assumed), regen_icode_closed, regen_icode_roundtrip_partial (indented code without blank lines / tabs). Verif.Props.InlineLoop2: inline_loop_line_end_partial (where every character of a line-break turn goes: backslash hard break, space hard break, soft break; nothing lost).",
+         LEAFBLOCKS2 + "fence_content_roundtrip_partial, icode_roundtrip (stored white space + text = the source line, through C02's resolve_encode / remove_encode; general for tab-free lines, TAB cases are #guard tests + tie).",
          REGENLEAF + "regen_total (no exception on streams satisfying the explicit guard WF, by a guard-to-context simulation; 12 regen_excluded_* witnesses, one per guard clause), "
          "regen_concat / regen_concat_parts (the output is the concatenation of per-token contributions + final-newline correction), regen_blocks_compose, regen_paragraph_text / "
          "regen_paragraph_document, regen_leaf_roundtrip (blank line, thematic break, ATX heading, paragraph, setext heading, closed fenced block: regenerating the tokens the block pass "
@@ -362,19 +364,23 @@ EXTRA2 = {
          "position), with the full statement PROVED FALSE for the code by positions_excluded_multiline / positions_excluded_setext — the root causes of the known family F-C05-INLINECOL "
          "(an element spanning a line break does not advance the paragraph's per-line indentation index; setext heading after a hard break counts the indentation twice; the code-span "
          "column delta ignores the paragraph's leading white space)."],
- "C06": [TOKENRULES2 + "mdX_scan_iff and mdX_faithful_eq_spec (or _partial + proved witness, each run on the real rule) for MD023 MD030 MD037 MD044 MD046.",
+ "C06": [" Verif.Props.ScanRules2b: md032_scan_iff (under the guard Safe032; the condition is stated over the containers still on the rule's stack, which keeps a list that ended after a blank line: md032_never_popped), md018/md020_scan_iff_partial (one-paragraph files), md013_faithful_eq_spec_partial + md013_faithful_differs_stern.",
+         TOKENRULES2 + "mdX_scan_iff and mdX_faithful_eq_spec (or _partial + proved witness, each run on the real rule) for MD023 MD030 MD037 MD044 MD046.",
          SCANRULES2 + "mdX_scan_iff for MD013 and MD011 (under the guard that leaf / blank-line tokens start on increasing lines: the governing token of a line is the last such token starting at or before it), MD014 MD034 MD028 (every stream), MD033 (when the assert cannot fail); MD018 MD020 MD032: model + tie + excluded points (md032_stack_leak).",
          SCANRULES + "mdX_scan_iff (reports <=> a sentence-shaped condition over the stream; unconditional for MD003 MD022 MD025 MD040 MD042 MD045, under a guard every parsed stream "
          "satisfies for MD024 MD026 MD036 MD041, 8 excluded-point witnesses), mdX_faithful_eq_spec against Verif.Model.RuleSpec (full: MD003 MD024 MD025 MD040; _partial with proved "
          "witnesses md045_differs (U+000B), md042_differs (U+00A0), md041_h1_differs (<H1>), md024_text_differs, md022_count_unknown_after_list)."],
- "C07": [LISTRULES + "md007_total_partial (no exception on streams satisfying an explicit invariant: balanced containers + a line budget for the enclosing block quotes; proof by refining the dict bookkeeping to a frame stack), md007_total_excluded_known_crash (the known IndexError stream violates the invariant and the model raises as the real rule does) + five more excluded witnesses, md006_total, md007_reports_in_range, md006_reports_in_range; the invariant holds on 110 976 of 111 004 parsed streams, the 28 others are the 7 known-crash documents x 4 configurations.",
+ "C07": [" Verif.Props.ScanRules2b: md032_total, md032_reports_in_range (+ md032_line_above_excluded), md018_total_partial, md018_reports_in_range_partial with md018_reports_in_range_excluded ('   x\\n#a' -> 2:4).",
+         LISTRULES + "md007_total_partial (no exception on streams satisfying an explicit invariant: balanced containers + a line budget for the enclosing block quotes; proof by refining the dict bookkeeping to a frame stack), md007_total_excluded_known_crash (the known IndexError stream violates the invariant and the model raises as the real rule does) + five more excluded witnesses, md006_total, md007_reports_in_range, md006_reports_in_range; the invariant holds on 110 976 of 111 004 parsed streams, the 28 others are the 7 known-crash documents x 4 configurations.",
          SCANRULES2 + "mdX_reports_in_range for MD013 MD011 MD014 MD033 MD034 (adjust034_bounds), mdX_total for MD014 MD028 MD034 (every file) and MD013 MD011 MD033 (under their guards); excluded points that are real crashes: md033_excluded (<h1 </h1>), md011_excluded / md013_excluded (a one-line pragma document: empty leaf-token list).",
          SCANRULES + "mdX_reports_in_range for all ten (every report's (line, column) is the position, or for a SetExt heading the original position, of a token of the stream of the named "
          "kind; md026_delta_bounds for MD026's computed deltas)."],
- "C12": [SCANRULES2 + "mdX_scan_reads for MD011 MD013 MD014 MD028 MD032 MD033 MD034.",
+ "C12": [" Verif.Props.ScanRules2b: allNine_projection (each of the nine rules alone returns exactly its share of the joint list, same order, token and line pass), md018_scan_reads, md020_scan_reads.",
+         SCANRULES2 + "mdX_scan_reads for MD011 MD013 MD014 MD028 MD032 MD033 MD034.",
          SCANRULES + "allTen_projection (in the joint pass each rule's share of the report list is exactly what it reports alone, same order), mdX_scan_reads (the verdict depends only on the "
          "named token kinds / fields)."],
- "C13": [LISTRULES + "md007_state_reset_partial (for EVERY leftover state of the plug-in object, incl. a file abandoned in the middle of the token pass), md007_state_reset_excluded, ctm_clear_eq_fresh_iff (ContainerTokenManager.clear() does not reset list_adjust_map: after clear() the manager equals a fresh one iff the map was empty — reports on well-formed streams proved unaffected), md006_state_reset.",
+ "C13": [" Verif.Props.ScanRules2b: md018_state_reset, md020_state_reset for ALL A, B (the three parser fields starting_new_file leaves alone are assigned at the next paragraph start before they are read).",
+         LISTRULES + "md007_state_reset_partial (for EVERY leftover state of the plug-in object, incl. a file abandoned in the middle of the token pass), md007_state_reset_excluded, ctm_clear_eq_fresh_iff (ContainerTokenManager.clear() does not reset list_adjust_map: after clear() the manager equals a fresh one iff the map was empty — reports on well-formed streams proved unaffected), md006_state_reset.",
          SCANRULES2 + "mdX_state_reset (file B after file A = B alone, all A, B) for MD011 MD013 MD014 MD028 MD032 MD033 MD034; md018_stale_delayed_line (MD018 / MD020 reset 4 of 7 parser fields: a stale delayed line is reported into the previous file's context); 43 k two-file comparisons against fresh rule objects.",
          SCANRULES + "mdX_state_reset: scanAfter rule cfg A B = scan rule cfg B for ALL streams A, B (nine rules assign every field in starting_new_file; MD022 leaves "
          "__start_heading_blank_line_count unassigned: proved harmless, with an example that the start states really differ); 71 k two-file sequences on one PluginManager vs fresh objects."],
